@@ -224,6 +224,21 @@ class GrammarGen:
         self._ctx = ctx
         return ctx
 
+    VARIED_NAMES = ['a', 'b', 'c1', 'd', 'e2', 'f', 'g']
+
+    def _vary_names(self, toks):
+        """the k-th plain name of a sentence gets its own spelling (all names equal would hide everything that depends
+        on two names being different: duplicate checks, lookups of one name among others)"""
+        base = self._default_lexeme('ID')
+        out, k = [], 0
+        for t in toks:
+            if t == base:
+                out.append(self.VARIED_NAMES[k % len(self.VARIED_NAMES)])
+                k += 1
+            else:
+                out.append(t)
+        return out
+
     def pair_sentences(self):
         """Deterministic list of (label, tokens): for every usable production N -> X1..Xk, once with minimal children,
         and for every nonterminal position i and every usable alternative q of Xi once with Xi derived through q;
@@ -246,7 +261,7 @@ class GrammarGen:
                             if self.usable(q):
                                 cands.append((f'{n}->{" ".join(a)} @{i}:{" ".join(q) or "<empty>"}', self.expand(a, i, q)))
                 for label, mid in cands:
-                    toks = pre + mid + suf
+                    toks = self._vary_names(pre + mid + suf)
                     key = tuple(toks)
                     if key not in seen and len(toks) <= 120:
                         seen.add(key)
